@@ -178,6 +178,10 @@ def preprocess_tag_block_spacing(text: str) -> str:
     if not has_tag_only_lines:
         return text
 
+    # Whether a list or table has begun since the last empty line or tag line: its last item
+    # may go on over further lines ("- item" / "  continued"), which are part of it too.
+    in_block = False
+
     for i, line in enumerate(lines):
         # Check if we need to add a blank line BEFORE this line
         if i > 0:
@@ -189,10 +193,16 @@ def preprocess_tag_block_spacing(text: str) -> str:
             if not prev_is_empty and _is_tag_only_line(prev_line) and line_is_block_content(line):
                 result_lines.append("")
 
-            # Case 2: Previous line is block content, current line is a closing tag-only line
+            # Case 2: A list/table is open (the previous line is block content or continues
+            # it), current line is a closing tag-only line
             # (need blank line after list/table before closing tag)
-            if not prev_is_empty and line_is_block_content(prev_line) and _is_tag_only_line(line):
+            if not prev_is_empty and in_block and _is_tag_only_line(line):
                 result_lines.append("")
+
+        if line.strip() == "" or _is_tag_only_line(line):
+            in_block = False
+        elif line_is_block_content(line):
+            in_block = True
 
         result_lines.append(line)
 
